@@ -20,7 +20,7 @@ def inductive(ctx, module: str, cinit: str, init: str, indinit: str, inv: str, t
         cmd = [exe, "check", f"--cinit={cinit}", f"--init={i}", f"--inv={inv}", f"--length={n}", f"--out-dir={d}",
                str(tlc.SPEC / f"{module}.tla")]
         try:
-            p = subprocess.run(cmd, cwd=str(tlc.SPEC), capture_output=True, text=True, timeout=timeout)
+            p = subprocess.run(cmd, cwd=str(d), capture_output=True, text=True, timeout=timeout)
         except subprocess.TimeoutExpired as exc:
             raise tlc.MachineryError(f"apalache timed out: {' '.join(cmd)}") from exc
         finally:
